@@ -80,7 +80,7 @@ func (vc *VC) callWith(fr *Frame, c *ssa.CallCommon, args []SV, fnv *SV, instr s
 func (vc *VC) callFunc(fr *Frame, callee *ssa.Function, args []SV, bind []SV, pos token.Pos) []SV {
 	org := origin(callee)
 	name := org.String()
-	if vc.eng.isOpaqueSpec(org) {
+	if vc.eng.isOpaqueSpec(org) || (vc.hidden[org.Name()] && vc.eng.isSpec(org)) {
 		return vc.applyOpaque(org, args)
 	}
 	if r, ok := vc.gcIntrinsic(fr, org, args); ok {
@@ -579,7 +579,7 @@ func (vc *VC) applyOpaque(fn *ssa.Function, args []SV) []SV {
 			out.L = append(out.L, "("+f+" "+strings.Join(terms, " ")+")")
 		}
 	}
-	if vc.rec == nil {
+	if vc.rec == nil && !vc.hidden[od.name] {
 		if vc.revealed[od.name] {
 			hm := map[string]string{}
 			for i, h := range od.heaps {
@@ -600,8 +600,15 @@ func (vc *VC) applyOpaque(fn *ssa.Function, args []SV) []SV {
 			vc.stack = savedStack
 			vc.pure--
 			vc.inline--
+			rl := vc.eng.layoutOf(fn.Signature.Results().At(0).Type()).L
 			for j := range od.rets {
-				vc.emit("(assert " + eq(out.L[j], body[0].L[j]) + ")")
+				if false && rl[j].Kind == kBool && strings.Contains(body[0].L[j], "(forall ") {
+					// two implications keep each quantifier in a single polarity
+					vc.emit("(assert (=> " + out.L[j] + " " + body[0].L[j] + "))")
+					vc.emit("(assert (=> " + body[0].L[j] + " " + out.L[j] + "))")
+				} else {
+					vc.emit("(assert " + eq(out.L[j], body[0].L[j]) + ")")
+				}
 			}
 		}
 	}
